@@ -262,6 +262,37 @@ func checkC20(e *Engine, r *Report) {
 				}
 			}
 		})
+		// … and hands back that entry unchanged
+		okVal := true
+		nRet := 0
+		for _, ret := range Returns(reader) {
+			v := ret.Results[0]
+			if k, isK := v.(*ssa.Const); isK && k.IsNil() {
+				continue
+			}
+			nRet++
+			al, isAl := v.(*ssa.Alloc)
+			if !isAl {
+				okVal = false
+				continue
+			}
+			for _, ref := range *al.Referrers() {
+				st, isSt := ref.(*ssa.Store)
+				if !isSt || st.Addr != ssa.Value(al) {
+					continue
+				}
+				switch y := st.Val.(type) {
+				case *ssa.Lookup:
+				case *ssa.Extract:
+					if _, isLk := y.Tuple.(*ssa.Lookup); !isLk {
+						okVal = false
+					}
+				default:
+					okVal = false
+				}
+			}
+		}
+		r.Check("R13:oom-table-entry-returned-unmodified", "R13 round trip", "OomAdjToMemReq returns the table entry itself (no rounding or other arithmetic on it), so what maps back is what was stored", e.Pos(reader.Pos()), reader, okVal && nRet >= 1, "", true)
 		r.Check("R13:oom-table-read-by-own-adj", "R13 round trip", "OomAdjToMemReq looks the estimate up under the adjustment it was given", e.Pos(reader.Pos()), reader, okRead && gTab != nil, "", true)
 		// the table is (re)built from the capacity MemReqToOomAdj uses: SetMemoryCapacity stores the capacity before building, and is the only writer of both
 		var stCap, stTab ssa.Instruction
